@@ -438,8 +438,11 @@ func genC08(rng *mrand.Rand, id string, p, e, a int, enc string) c08Case {
 	}
 	fix(s.Embeds)
 	fix(s.Attach)
-	s.SMIME = gen.Pick(rng, []string{"rsa", "ecdsa", "rsa", "ecdsa", "rsa-ca384", "ecdsa-ca384"})
+	s.SMIME = gen.Pick(rng, []string{"rsa", "ecdsa", "rsa", "ecdsa", "rsa-ca384", "ecdsa-ca384", "rsa-sameserial"})
 	s.WithInt = rng.Intn(2) == 0
+	if s.SMIME == "rsa-sameserial" {
+		s.WithInt = true
+	}
 	if rng.Intn(6) == 0 {
 		s.Boundary = "verif-custom-boundary-0123456789"
 	}
@@ -459,7 +462,7 @@ func genC08(rng *mrand.Rand, id string, p, e, a int, enc string) c08Case {
 
 func runC08(r *ev.Run, rep *ev.ReplayDoc) ev.Summary {
 	sum := ev.Summary{
-		Rule: "S/MIME-signed messages over enumerated shapes (parts 0-3 x embeds 0-2 x attachments 0-2) and random specs with canonical-CRLF content, every transfer encoding per part and file, part descriptions, empty generic headers, address lists emptied by the IgnoreInvalid setters, (multi-line) preformatted headers, long folded headers, signing configured through SignWithTLSCertificate, signing configured after the message has been rendered unsigned, message middlewares that change the body / a header / the part encoding / add an attachment, RSA-2048 and ECDSA-P256 signer certificates with and without the intermediate, also leaves whose own certificate is signed ecdsa-with-SHA384 by a P-384 CA; each message rendered twice, and a third time after further builder calls (add an alternative / attachment / embed, change subject or header, replace the body, add a recipient). The harness splits multipart/signed with its own MIME reader and verifies the detached CMS SignedData with its own verifier; openssl smime -verify cross-checks (all cases in quick, a sample in thorough). distinct by (shape, features)",
+		Rule: "S/MIME-signed messages over enumerated shapes (parts 0-3 x embeds 0-2 x attachments 0-2) and random specs with canonical-CRLF content, every transfer encoding per part and file, part descriptions, empty generic headers, address lists emptied by the IgnoreInvalid setters, (multi-line) preformatted headers, long folded headers, signing configured through SignWithTLSCertificate, signing configured after the message has been rendered unsigned, message middlewares that change the body / a header / the part encoding / add an attachment, RSA-2048 and ECDSA-P256 signer certificates with and without the intermediate, also leaves whose own certificate is signed ecdsa-with-SHA384 by a P-384 CA, and a leaf that has the same serial number as its issuing intermediate; each message rendered twice, and a third time after further builder calls (add an alternative / attachment / embed, change subject or header, replace the body, add a recipient). The harness splits multipart/signed with its own MIME reader and verifies the detached CMS SignedData with its own verifier; openssl smime -verify cross-checks (all cases in quick, a sample in thorough). distinct by (shape, features)",
 		Assumptions: []string{
 			"the signed entity is the first body part exactly as emitted, without the CRLF that belongs to the following delimiter (RFC 1847)",
 			"trust in the harness CMS verifier is established per run against OpenSSL 3 on every cross-checked message (a disagreement in the accepting direction is a harness error)",
